@@ -29,18 +29,18 @@ type c13File struct {
 }
 
 type c13Case struct {
-	Scale   string    `json:"scale"` // 2E4 | 1E6 | 1E8 (worker driven through the shim on short files) | 1E8hdr (scale switch of main)
-	Files   []c13File `json:"files"`
-	Extras  []string  `json:"extras,omitempty"`   // non-sample files (other suffixes)
-	ExtraSizes []int  `json:"extra_sizes,omitempty"` // their sizes (smaller, equal to and larger than a sample; other supported sample sizes)
-	DirBin  string    `json:"dir_bin,omitempty"`  // a directory whose name ends in .bin / .dat
-	InputStyle string `json:"input_style,omitempty"` // "" absolute | "rel" in | "dotrel" ./in | "parent" ../<dir>/in | "hidden" a directory whose name starts with a dot | "slash" trailing slash
-	ReportIn string   `json:"report_in,omitempty"` // "" = outside the input tree; otherwise a path relative to the input directory (the report is written among the samples)
-	Stale   int       `json:"stale_report_bytes,omitempty"` // the -o path already holds an older (longer) report of this many bytes
-	Workers int       `json:"workers"`
-	Race    bool      `json:"race,omitempty"` // run the binary / shim built with the race detector
-	Procs   int       `json:"gomaxprocs,omitempty"`
-	FdLimit int       `json:"fd_limit,omitempty"` // run the tool under this descriptor limit (1024 = the usual default soft limit)
+	Scale      string    `json:"scale"` // 2E4 | 1E6 | 1E8 (worker driven through the shim on short files) | 1E8hdr (scale switch of main)
+	Files      []c13File `json:"files"`
+	Extras     []string  `json:"extras,omitempty"`             // non-sample files (other suffixes)
+	ExtraSizes []int     `json:"extra_sizes,omitempty"`        // their sizes (smaller, equal to and larger than a sample; other supported sample sizes)
+	DirBin     string    `json:"dir_bin,omitempty"`            // a directory whose name ends in .bin / .dat
+	InputStyle string    `json:"input_style,omitempty"`        // "" absolute | "rel" in | "dotrel" ./in | "parent" ../<dir>/in | "hidden" a directory whose name starts with a dot | "slash" trailing slash
+	ReportIn   string    `json:"report_in,omitempty"`          // "" = outside the input tree; otherwise a path relative to the input directory (the report is written among the samples)
+	Stale      int       `json:"stale_report_bytes,omitempty"` // the -o path already holds an older (longer) report of this many bytes
+	Workers    int       `json:"workers"`
+	Race       bool      `json:"race,omitempty"` // run the binary / shim built with the race detector
+	Procs      int       `json:"gomaxprocs,omitempty"`
+	FdLimit    int       `json:"fd_limit,omitempty"` // run the tool under this descriptor limit (1024 = the usual default soft limit)
 }
 
 var colRe = regexp.MustCompile(`^\[\s*(\d+)\] (P1|P2|Q1|Q2|P|Q) (\S+)(?: (.*))?$`)
@@ -698,6 +698,25 @@ func TestC13ManyFiles(t *testing.T) {
 			fam := []string{"uniform", "biased", "nearflat", "markov"}[i%4]
 			q := gen.Seq{Family: fam, N: 20000, Seed: uint64(9000 + i), F: 0.47, A: 7}
 			c.Files = append(c.Files, c13File{Path: filepath.Join([]string{"", "a", "a/b", "x/y/z"}[i%4], fmt.Sprintf("s%04d.%s", i, []string{"bin", "dat"}[i%2])), Seq: q})
+		}
+		cases = append(cases, c)
+	}
+	enumerate(t, "C13", cases, checkC13)
+}
+
+// TestC13SlowFirst: 10^6-bit scale, few workers, many more files than workers, and one file whose tests take ten times longer
+// than those of the files that follow it in walk order (random content against constant / short-period content: linear
+// complexity dominates). Results then finish far out of order. Deterministic.
+func TestC13SlowFirst(t *testing.T) {
+	var cases []c13Case
+	for _, w := range []int{2, 3} {
+		c := c13Case{Scale: "1E6", Workers: w}
+		for i := 0; i < 5*w+3; i++ {
+			q := gen.Seq{Family: "periodic", N: 1000000, Bits: []string{"01", "0011", "00010111", "1"}[i%4]}
+			if i == 0 || i == 2*w+1 {
+				q = gen.Seq{Family: "uniform", N: 1000000, Seed: uint64(60 + i)}
+			}
+			c.Files = append(c.Files, c13File{Path: filepath.Join([]string{"", "a"}[i/(3*w)%2], fmt.Sprintf("f%02d.%s", i, []string{"bin", "dat"}[i%2])), Seq: q})
 		}
 		cases = append(cases, c)
 	}
